@@ -291,6 +291,15 @@ def FS.store (fs : FS) (oid : Nat) (d : Bytes) : FS :=
     { fs with txn := some { st with recs :=
         { oid := oid, tid := st.tid, prev := lastPos oid (flat fs.log), pl := .data d } :: st.recs } }
 
+/-- `deleteObject` (payload `.back 0`) and `restore` (a back pointer found by `_data_find`, or
+    `.back 0` for `data=None`): a record with an arbitrary payload, `prev` = index entry as in `store` -/
+def FS.storePayload (fs : FS) (oid : Nat) (pl : Payload) : FS :=
+  match fs.txn with
+  | none => fs
+  | some st =>
+    { fs with txn := some { st with recs :=
+        { oid := oid, tid := st.tid, prev := lastPos oid (flat fs.log), pl := pl } :: st.recs } }
+
 def FS.undo (resolve : Resolver) (fs : FS) (tid : Nat) : FS × Except UErr (List Nat) :=
   match fs.txn with
   | none => (fs, .error .invalidTid)
